@@ -41,14 +41,19 @@ func (t *mixedTable) insert(k, v Value) {
 	if ok && t.array.setValue(i, v) {
 		return
 	}
+	if ok {
+		k = IntValue(i)
+	}
+	// Updating a key that is already there must not move keys around (it is
+	// allowed while the table is being traversed).
+	if t.hashTable.reset(k, v) {
+		return
+	}
 	if t.hashTable.full() {
 		t.grow()
 		if ok && t.array.setValue(i, v) {
 			return
 		}
-	}
-	if ok {
-		k = IntValue(i)
 	}
 	t.hashTable.set(k, v)
 }
